@@ -181,6 +181,7 @@ func VerifyFunc(p *Program, fn *ssa.Function, cfg Config, opt Options) (res *Uni
 		}
 		params = append(params, u.freshVal(st, prm.Type(), name, true))
 	}
+	u.paramVals = params
 	ct := p.ContractOf(fn)
 	if ct != nil && opt.UseRequires {
 		for _, cl := range ct.Requires {
@@ -219,6 +220,7 @@ func VerifyFunc(p *Program, fn *ssa.Function, cfg Config, opt Options) (res *Uni
 				ok := u.check(st2, name, "post", t, cl.Text)
 				_ = ok
 				u.Obls[name].Props = cl.Props
+				u.Obls[name].ClauseFunc = cl.Func
 			}
 			u.curFn = u.curFn[:len(u.curFn)-1]
 		}
